@@ -185,6 +185,11 @@ def run_chain(desc, seed):
             add(f"C05:below-eckart-young:{crit}", f"{tag}: distance {dist} < largest single-bond discarded weight {low}")
         if dist > up + slack:
             add(f"C05:above-discarded-weight:{tag.split()[0]}:{direction}", f"{tag}: distance {dist:.6e} > sqrt(summed discarded weights) {up:.6e}; bond dims {bd} limits {limits}")
+        if limits is not None and thr is None:
+            # the bound of the property is in terms of the REQUESTED limits: sqrt(sum_b sum_{k > M_b} sigma_k^2) of the original state
+            up_req = np.sqrt(sum(np.sum(s[x:] ** 2) for s, x in zip(spectra, limits)))
+            if dist > up_req + slack:
+                add(f"C05:over-truncated:{tag.split()[0]}:{direction}", f"{tag}: distance {dist:.6e} > sqrt(summed discarded weights for the requested limits) {up_req:.6e}; bond dims {bd} limits {limits}")
         if s_array is not None:
             first_cut = (n - 2) if direction == "L" else 0
             ref = spectra[first_cut]
